@@ -250,8 +250,19 @@ impl RdbReader {
 }
 
 // ---- the writer's side of the same record
+/// expiry opcode, then the deadline now + ttl in milliseconds, saturating
+pub open spec fn ttl_prefix(o0: Seq<WItem>, now_ms: u64, ttl_ms: int) -> Seq<WItem> {
+    o0.push(WItem::Byte(0xFCu8)).push(WItem::U64(if now_ms + ttl_ms <= u64::MAX { (now_ms + ttl_ms) as u64 } else { u64::MAX }))
+}
+/// the wall clock in milliseconds since the epoch (RXPR site): unconstrained
+#[verifier::external_body]
+pub fn verif_now_ms() -> u128 { unimplemented!() }
+/// `u64::try_from(x).unwrap_or(u64::MAX)` (RT site): the value if it fits, else the greatest
+pub fn verif_u64_or_max(x: u128) -> (r: u64)
+    ensures r == (if x <= u64::MAX { x as u64 } else { u64::MAX }),
+{ if x <= u64::MAX as u128 { x as u64 } else { u64::MAX } }
 pub struct IoError { pub g: Ghost<int> }
-pub enum WItem { Byte(u8), Str(Seq<u8>), Len(int) }
+pub enum WItem { Byte(u8), Str(Seq<u8>), Len(int), U64(u64) }
 /// MODEL of RdbWriter<W>: notes what is written, item by item (the byte-level encoders write_string / write_length are C09's codec units)
 pub struct RdbWriter { pub out: Ghost<Seq<WItem>> }
 impl RdbWriter {
@@ -267,6 +278,28 @@ impl RdbWriter {
     fn write_length(&mut self, len: usize) -> (r: std::result::Result<(), IoError>)
         ensures r is Ok ==> final(self).out@ == old(self).out@.push(WItem::Len(len as int)),
     { unimplemented!() }
+
+    #[verifier::external_body]
+    fn write_u64_le(&mut self, n: u64) -> (r: std::result::Result<(), IoError>)
+        ensures r is Ok ==> final(self).out@ == old(self).out@.push(WItem::U64(n)),
+    { unimplemented!() }
+
+//@@ unit save_ttl_prefix stmts src/storage/rdb.rs RdbWriter::write_key_value "if let Some(ttl) = ttl" upto "match value"
+//@@   opt same-return-type
+//@@   tail Ok(())
+//@@   rewrite RXPR "SystemTime::now() .duration_since(UNIX_EPOCH) .unwrap() .as_millis()" "verif_now_ms()"
+//@@   rewrite RT "RdbOpcode::ExpireTimeMs as u8" "0xFCu8"
+//@@   rewrite RT "u64::try_from(ttl.as_millis()).unwrap_or(u64::MAX)" "verif_u64_or_max(ttl.as_millis())"
+//@@   after "self.write_u64_le(expiry_ms)?;"
+//@@|     proof { assert(ttl_prefix(old(self).out@, now_ms, dur_nanos(ttl) / 1_000_000) =~= self.out@); }
+    fn save_ttl_prefix(&mut self, ttl: Option<Duration>) -> (r: std::result::Result<(), IoError>)
+        ensures
+            // C09 / C10 / C06: a key with a TTL is written with the expiry opcode and the deadline now + ttl in milliseconds — computed without
+            // overflow for EVERY ttl (saturating at the greatest deadline); a key without TTL gets no prefix
+            ttl is None ==> r is Ok && final(self).out@ == old(self).out@,
+            (ttl is Some && r is Ok) ==> exists|now_ms: u64| #[trigger] ttl_prefix(old(self).out@, now_ms, dur_nanos(ttl->Some_0) / 1_000_000) == final(self).out@,
+//@@ body
+//@@ end
 
 //@@ unit save_list_arm arm src/storage/rdb.rs RdbWriter::write_key_value "Value::List(list)"
 //@@   opt same-return-type
